@@ -186,3 +186,10 @@ Definition exit_code_q (o : res (iout SAQ)) : option nat :=
 Lemma k3q_stab_exit :
   exit_code_q (@run_sparse SAQ BiCGSTAB k3q_s [q 0 1; q (-6) 1; q 6 1] [q 0 1; q 0 1; q 0 1] 160 (q 1 1000000)) = Some 10.
 Proof. vm_compute. reflexivity. Qed.
+
+(* observer for the non-vacuity examples about Err answers (closed terms evaluate under vm_compute) *)
+Definition is_err {A : SArith} (o : res (iout A)) : bool :=
+  match o with Ok (IErr _, _, _) => true | _ => false end.
+Lemma is_err_witness {A : SArith} (o : res (iout A)) :
+  is_err o = true -> exists e x g, o = Ok (IErr e, x, g).
+Proof. destruct o as [[[[k|e] x] g]|p]; cbn; intros H; try discriminate. eauto. Qed.
